@@ -195,7 +195,7 @@ pub fn c03_case(u: &mut Unstructured) -> Result<c03::Case> {
     while !u.is_empty() && ops.len() < max {
         ops.push(sop(u, true)?);
     }
-    Ok(c03::Case { vt, compress, table_cap, ops, checkpoints })
+    Ok(c03::Case { vt, compress, table_cap, ops, checkpoints, embed: None })
 }
 
 pub fn cnf_case(u: &mut Unstructured, max_nv: u8, max_clauses: usize, max_len: usize) -> Result<CnfCase> {
